@@ -9,7 +9,7 @@ representatives.
 from .. import tlc
 from . import c21
 
-FIELDS_Q = [(2, 1), (7, 1), (251, 1), (257, 1), (2, 3), (2, 8), (3, 2), (3, 5)]
+FIELDS_Q = [(2, 1), (7, 1), (251, 1), (257, 1), (2, 3), (2, 8), (3, 2), (3, 5), (17, 2), (7, 3)]   # orders around powers of 256 included
 FIELDS_T = FIELDS_Q + [(3, 1), (11, 1), (101, 1), (509, 1), (1021, 1), (2, 2), (2, 4), (2, 9), (5, 2), (5, 3), (7, 2), (3, 6)]
 INVS = ['BytesOK', 'PickleOK', 'IntOK']
 
